@@ -366,6 +366,16 @@ func (p c16) Run(c *fw.Case) {
 				opts.TypeSchemas[std[i]] = &jsonschema.Schema{Types: []string{"string", "number"}, Description: "caller's " + std[i].String()}
 			}
 		}
+		if r.IntN(4) == 0 {
+			// entries keyed by UNNAMED types (slice, map, array, anonymous struct, interface): substituted like any other
+			t = gen.Pick(r, []reflect.Type{reflect.TypeFor[typecorpus.UnnamedKinds](), reflect.TypeFor[[]typecorpus.UnnamedKinds](), reflect.TypeFor[map[string][]string]()})
+			un := []reflect.Type{reflect.TypeFor[[]string](), reflect.TypeFor[map[string]int](), reflect.TypeFor[[]byte](), reflect.TypeFor[any](), reflect.TypeFor[[2]float32](), reflect.TypeFor[struct {
+				Q int `json:"q"`
+			}]()}
+			for _, i := range r.Perm(len(un))[:1+r.IntN(len(un))] {
+				opts.TypeSchemas[un[i]] = &jsonschema.Schema{Type: "string", Description: "caller's " + un[i].String()}
+			}
+		}
 		for k := r.IntN(12); k > 0 && r.IntN(2) == 0; k-- { // unrelated entries
 			opts.TypeSchemas[gen.Pick(r, decoyTypes)] = &jsonschema.Schema{Type: "boolean", Description: "unrelated"}
 		}
